@@ -73,6 +73,8 @@ type V struct {
 	Elems  []*V     // List elements; Object field values; Map k0,v0,k1,v1,...
 	Target *V       // Ref: the container denoted (nil when unresolvable)
 	Ord    int      // container: stream ordinal (-1 unknown); Ref: ordinal written
+	Static bool     // projected values: the position is statically typed on the Go side (struct field, element of a typed container)
+	Field  bool     // projected values: the node sits directly in a struct field (first occurrence)
 	W      *Wire
 }
 
